@@ -72,6 +72,7 @@ type signCase struct {
 	NoSign     bool              `json:"no_sign"` // Delivery.Sign == nil
 	Env        map[string]string `json:"env"`     // environment for env: refs
 	Redirect   string            `json:"redirect"` // if set: first response is 307 to this path (policy has redirects on)
+	NowStepNs  int64             `json:"now_step_ns"` // the injected clock advances by this much with every reading (a clock that moves while a delivery is signed)
 	Group      string            `json:"group"`    // cases of one group share one deliverer and one signing config (a route's life: many deliveries, moving clock)
 }
 
@@ -96,6 +97,7 @@ type signCaseOut struct {
 	SelRef       string    `json:"sel_ref"` // white box: selectSigningSecretRef
 	SelErr       string    `json:"sel_err"`
 	Valid        []bool    `json:"valid"` // white box: isSigningSecretVersionValidAt per version
+	ClockReads   int       `json:"clock_reads"`
 	SigHeaderUse string    `json:"sig_header_used"`
 	TSHeaderUse  string    `json:"ts_header_used"`
 }
@@ -253,6 +255,16 @@ func signRun(in []byte) (any, error) {
 			d = dispatcher.NewHTTPDeliverer(&http.Client{}, dispatcher.EgressPolicy{HTTPSOnly: false, DNSRebindProtection: false, Redirects: c.Redirect != ""})
 			now := c.Now.Time()
 			d.Now = func() time.Time { return now }
+			if c.NowStepNs != 0 && c.Group == "" {
+				step := time.Duration(c.NowStepNs)
+				reads := &o.ClockReads
+				d.Now = func() time.Time {
+					t := now
+					now = now.Add(step)
+					*reads++
+					return t
+				}
+			}
 			if c.Group != "" {
 				groups[c.Group] = &signGroup{d: d, sc: sc, now: &now}
 			}
